@@ -254,6 +254,11 @@ func (e *Env) objValue(o types.Object) *Value {
 
 func (e *Env) findImport(name string) *types.Package {
 	g := e.g
+	if ap, ok := g.W.Aliases[e.pkgPath][name]; ok {
+		if p, ok := g.W.TypesPkgs[ap]; ok {
+			return p
+		}
+	}
 	if self := g.W.TypesPkgs[e.pkgPath]; self != nil {
 		for _, imp := range self.Imports() {
 			if imp.Name() == name {
